@@ -14,7 +14,9 @@ pub fn worker(inp: &str, out: &std::path::Path) {
         if line.starts_with("probe ") {
             probe_group(line, emit)
         } else {
-            run_case_ex(line, 2000, !no_probe(), emit)
+            run_case_ex(line, 2000, !no_probe(), emit);
+            // second pass: the shape of the row table after every character, for `Model/Rows*.lean`
+            crate::rowsfam::rows_case(line, emit)
         }
     });
 }
@@ -46,6 +48,11 @@ pub fn run(run: &mut Run, seed: u64, thorough: bool, replay: Option<&str>, corpu
     }
     let mut cases: Vec<String> = Vec::new();
     let mut groups: Vec<String> = Vec::new();
+    if let Some(path) = replay.and_then(|r| r.strip_prefix("@rowsdump:")) {
+        // debugging aid: the row table of the real terminal after every character of one case
+        println!("{}", crate::rowsfam::dump_case(&path.replace('_', " ")));
+        return;
+    }
     if let Some(r) = replay {
         cases.push(r.replace('_', " "));
     } else {
@@ -87,12 +94,17 @@ pub fn run(run: &mut Run, seed: u64, thorough: bool, replay: Option<&str>, corpu
         run.extra.push(("probe_groups".into(), pg.len().to_string()));
         cases.extend(pc);
         groups = pg;
+        // row-table family: ragged shapes x every content command (compared with Model/Rows via the `rows` driver)
+        let rc = crate::rowsfam::cases(seed, thorough);
+        run.extra.push(("rows_family_cases".into(), rc.len().to_string()));
+        cases.extend(rc);
     }
     let results = run_in_workers("c01", &dir, &cases, 20);
     for (case, res) in cases.iter().zip(results.iter()) {
         let short: String = case.split_whitespace().take(4).collect::<Vec<_>>().join("_");
         let emu = case.split_whitespace().next().unwrap_or("?").to_string();
         run.count(&format!("emu:{}", emu));
+        crate::rowsfam::count_labels(run, case);
         match res {
             Err(reason) => {
                 run.oracle_fail(&format!("{}:{}", emu_family(&emu), reason.split(':').next().unwrap_or("abort")), &short, &format!("worker died: {}", reason));
